@@ -159,10 +159,19 @@ def exec_engine(prop, tier, replay, t0):
             mc_desc = '%s: table invariant TableOK over %d rows; machine on every row, invariants %s' % (mod, table_rows, EXEC_INVS + ['C04_Machine'])
         else:
             # (A) exhaustive model checking of the traversal machine
+            # (the model-checking leg depends on the specification only, not on /repo: its outcome is remembered per
+            # specification version and tier, so that the nine properties of this engine do not each repeat it)
             cfg = vlib.cfg_text(vlib.exec_consts(extra={'Tier': '"%s"' % tier}), invariants=EXEC_INVS, properties=EXEC_PROPS, view='View')
-            mc = vlib.run_tlc('MC_Exec', cfg, workers=16, timeout=7200 if tier == 'thorough' else 900)
-            vlib.tlc_ok(mc, 'MC_Exec/' + tier)
-            mc_desc = 'MC_Exec Tier=%s invariants=%s properties=%s' % (tier, EXEC_INVS, EXEC_PROPS)
+            mcache = '%s/mcexec-%s-%s.json' % (vlib.BUILD, vlib.spec_hash(), tier)
+            if os.path.exists(mcache):
+                mc = json.load(open(mcache))
+            else:
+                mc = vlib.run_tlc('MC_Exec', cfg, workers=16, timeout=7200 if tier == 'thorough' else 900)
+                vlib.tlc_ok(mc, 'MC_Exec/' + tier)
+                os.makedirs(vlib.BUILD, exist_ok=True)
+                json.dump(dict(distinct=mc['distinct'], generated=mc['generated'], rc=mc['rc'], cached_from=time.strftime('%Y-%m-%dT%H:%M:%S')), open(mcache + '.tmp', 'w'))
+                os.replace(mcache + '.tmp', mcache)
+            mc_desc = 'MC_Exec Tier=%s invariants=%s properties=%s%s' % (tier, EXEC_INVS, EXEC_PROPS, ' (outcome of the run of %s for this specification version)' % mc['cached_from'] if mc.get('cached_from') else '')
         # (B) TLC-generated universe, table and trap cases, (C) recorded traces
         uni = gen_universe('quick')
         plan = spec['q'] if tier == 'quick' else spec['t']
